@@ -497,13 +497,19 @@ fn one_schedule(rep: &mut Report, env: &SchedEnv, collector: &Collector, b: &Val
 
 //------------ C37: free-running stress -------------------------------------------
 
-fn shared_world(rrdp: bool, children: usize) -> World {
+#[allow(dead_code)]
+fn shared_world(rrdp: bool, children: usize) -> World { shared_world_spelt(rrdp, children, false) }
+
+/// `mixed`: every other CA writes the host of the shared module with capital letters (host names are case-insensitive:
+/// one module, one fetch).
+fn shared_world_spelt(rrdp: bool, children: usize, mixed: bool) -> World {
     let mut ta = Ca::new("ta", None, 0, "rsync://ta.verif.test/repo/ta/");
     ta.prefixes = vec!["10.0.0.0/8".into()];
     ta.asns = vec![(64000, 65000)];
     let mut cas = vec![ta];
     for i in 1..=children {
-        let mut ca = Ca::new(&format!("c{i}"), Some(0), i % POOL_SIZE, &format!("rsync://shared.verif.test/repo/c{i}/"));
+        let host = if mixed && i % 2 == 1 { "Shared.Verif.TEST" } else if mixed && i % 3 == 0 { "SHARED.verif.test" } else { "shared.verif.test" };
+        let mut ca = Ca::new(&format!("c{i}"), Some(0), i % POOL_SIZE, &format!("rsync://{host}/repo/c{i}/"));
         ca.prefixes = vec![format!("10.{i}.0.0/16")];
         ca.serial = 100 + i as u64;
         if rrdp { ca.notify = Some("https://shared.verif.test/rrdp/notify.xml".into()); }
@@ -522,13 +528,17 @@ fn stress(args: &Args, rep: &mut Report) -> i32 {
     let mut broken = 0;
     // the third mode: the RRDP repository answers 404 (no local copy: the CAs fall back to rsync); the failed
     // attempt counts as the one fetch of the run, every other CA has to find it recorded
-    for (rrdp, available) in [(false, true), (true, true), (true, false)] {
-        let name = if !rrdp { "rsync" } else if available { "rrdp" } else { "rrdp-unavailable" };
+    for (rrdp, available, mixed) in [(false, true, false), (true, true, false), (true, false, false), (false, true, true)] {
+        let name = if mixed { "rsync-mixed-case" } else if !rrdp { "rsync" } else if available { "rrdp" } else { "rrdp-unavailable" };
         let bed = TestBed::new();
         let log = Arc::new(FetchLog::default());
-        let world = shared_world(rrdp, children);
+        let world = shared_world_spelt(rrdp, children, mixed);
         let published = world.build(&factory);
-        bed.publish(&published);
+        if mixed {
+            // the server's tree is keyed by the host in lower case, whatever the certificates write
+            let _ = published.write_rsync_tree_tolerant(&bed.pubdir);
+            published.write_tals(&bed.tals);
+        } else { bed.publish(&published); }
         let mut config = bed.config();
         let shared_key;
         if rrdp {
@@ -556,9 +566,14 @@ fn stress(args: &Args, rep: &mut Report) -> i32 {
             let events = log.take();
             let rsync_log = bed.take_rsync_log();
             let mut per_uri: BTreeMap<String, usize> = BTreeMap::new();
-            for e in events.iter().filter(|e| e.2 == "start") { *per_uri.entry(e.1.clone()).or_default() += 1; }
+            // scheme and host are case-insensitive: one repository whatever the spelling
+            let canon = |u: &str| -> String {
+                match u.find("://").and_then(|i| u[i + 3..].find('/').map(|j| i + 3 + j)) {
+                    Some(k) => format!("{}{}", u[..k].to_ascii_lowercase(), &u[k..]), None => u.to_ascii_lowercase() }
+            };
+            for e in events.iter().filter(|e| e.2 == "start") { *per_uri.entry(canon(&e.1)).or_default() += 1; }
             let mut per_mod: BTreeMap<String, usize> = BTreeMap::new();
-            for l in &rsync_log { *per_mod.entry(l.clone()).or_default() += 1; }
+            for l in &rsync_log { *per_mod.entry(canon(l)).or_default() += 1; }
             for (u, n) in per_uri.iter().chain(per_mod.iter()) {
                 rep.eval(pid);
                 if *n > 1 {
